@@ -136,7 +136,7 @@ Proof.
   pose proof (negreq_no_panic nbs). destruct (negreq_from_bytes nbs) as [r| |]; [|discriminate|congruence].
   destruct (negb (negreq_ok r)); [discriminate|].
   destruct (_ =? 0)%N; [destruct (_ <? _); discriminate|].
-  destruct (Nat.ltb_spec (length payload) (start + negreq_total + corr_total)) as [H2|H2]; [discriminate|].
+  destruct (Nat.eqb_spec (length payload) (start + negreq_total + corr_total)) as [H2|H2]; cbn [negb]; [|discriminate].
   destruct (slice_ok payload (start + negreq_total) (start + negreq_total + corr_total)) as (cb & Ecb & Lcb); [lia|lia|]. rewrite Ecb.
   pose proof (corr_no_panic cb). destruct (corr_from_bytes cb) as [i| |] eqn:Ei; [|discriminate|congruence].
   destruct (corr_ok_total i (corr_from_bytes_wf cb i Ei)) as [b Eb]. rewrite Eb. destruct b; discriminate.
